@@ -590,6 +590,7 @@ func famCompare(dir string, seed int64, tier string) {
 
 	w.flush()
 	wCb.flush()
+	apiLongStreamReaders(rep, r)
 	rep.write(dir)
 	repCb.write(dir)
 }
